@@ -121,7 +121,9 @@ def walk(case):
     m = dl.MCtx()
     struct_strs = {}
     rolled = False
-    seq = [("param", i, p) for i, p in enumerate(case["params"])]
+    # arguments left to their defaults are neither checked nor bound (typecheckers do not check default values)
+    keep = len(case["params"]) - min(case.get("omit", 0), case.get("ndefaults", 0))
+    seq = [("param", i, p) for i, p in enumerate(case["params"]) if i < keep]
     if case["ret"] is not None:
         seq.append(("return", None, case["ret"]))
     for stage, i, e in seq:
@@ -142,14 +144,21 @@ def walk(case):
 def build(case, ck, fname):
     ns = {"__ret": [None], "__calls": [], "__name__": "vf_generated"}
     parts = []
-    for p in case["params"]:
+    n = len(case["params"])
+    for i, p in enumerate(case["params"]):
         ns[f"A_{p['name']}"] = entry_annotation(p)
-        parts.append(f"{p['name']}: A_{p['name']}")
+        if i >= n - case.get("ndefaults", 0):
+            # trailing parameters with a (well-typed) default: the call may leave them out
+            parts.append(f"{p['name']}: A_{p['name']} = __D_{p['name']}")
+        else:
+            parts.append(f"{p['name']}: A_{p['name']}")
     retstr = ""
     if case["ret"] is not None:
         ns["A_ret"] = entry_annotation(case["ret"])
         retstr = " -> A_ret"
     src = f"def {fname}({', '.join(parts)}){retstr}:\n    __calls.append(1)\n    return __ret[0]\n"
+    for p in case["params"]:
+        ns[f"__D_{p['name']}"] = entry_value(p, ns)
     exec(compile(src, "<vf-generated>", "exec"), ns)
     with warnings.catch_warnings():
         warnings.simplefilter("ignore")
@@ -164,14 +173,17 @@ def check_case(ctx, case):
         ctx.classes["skipped-unspecified"] += 1
         return
     desc = {"params": [(p["name"], p["kind"], gc.spec_of(p) if p["kind"] not in ("cfg", "unrepr", "fickle") else p["kind"], p.get("structure"), p.get("shape", p.get("tree"))) for p in case["params"]],
-            "ret": (gc.spec_of(case["ret"]), case["ret"]["shape"]) if case["ret"] else None, "flag": case["flag"]}
-    fickle = any(p["kind"] == "fickle" for p in case["params"])
+            "ret": (gc.spec_of(case["ret"]), case["ret"]["shape"]) if case["ret"] else None, "flag": case["flag"],
+            "defaults": [case.get("ndefaults", 0), case.get("omit", 0)]}
+    keep_n = len(case["params"]) - min(case.get("omit", 0), case.get("ndefaults", 0))
+    fickle = any(p["kind"] == "fickle" for p in case["params"][:keep_n])  # (an omitted, defaulted parameter is never looked at)
     for ck in ("typeguard", "beartype"):
         fn, ns = build(case, ck, case["fname"])
         ns["__ret"][0] = entry_value(case["ret"]) if case["ret"] else None
         for style in ("pos", "kw"):
             vals = [entry_value(p, ns) for p in case["params"]]
-            args, kwargs = (vals, {}) if style == "pos" else ([], {p["name"]: v for p, v in zip(case["params"], vals)})
+            keep = len(vals) - min(case.get("omit", 0), case.get("ndefaults", 0))  # the last `omit` (defaulted) arguments are not passed
+            args, kwargs = (vals[:keep], {}) if style == "pos" else ([], {p["name"]: v for p, v in list(zip(case["params"], vals))[:keep]})
             jaxtyping.config.update("jaxtyping_remove_typechecker_stack", case["flag"])
             _FickleMeta.asked = 0
             try:
@@ -241,7 +253,7 @@ def check_case(ctx, case):
     rejected = w["stage"] in ("param", "return")
     nontrivial = rejected and (w.get("tentative", 0) >= 1 or w.get("rolled") or (w["stage"] == "return" and bool(w["m"].bindings())))
     ctx.note([desc], nontrivial,
-             classes=(["unpinnable-violation"] if fickle else []) + [f"stage-{w['stage']}", f"flag-{case['flag']}"] + ([f"allowed-{'+'.join(sorted(w['allowed']))}", f"fail-index-{w['index']}"] if rejected else [])
+             classes=(["unpinnable-violation"] if fickle else []) + (["defaulted-arguments-omitted"] if min(case.get("omit", 0), case.get("ndefaults", 0)) else []) + [f"stage-{w['stage']}", f"flag-{case['flag']}"] + ([f"allowed-{'+'.join(sorted(w['allowed']))}", f"fail-index-{w['index']}"] if rejected else [])
              + (["union-rolled-back-before"] if w.get("rolled") else []) + ([f"tentative-{min(w.get('tentative', 0), 3)}"] if rejected else []),
              sample=dict(desc, first_failure=[w["stage"], w.get("index")], bindings_in_force=w["m"].bindings() if "m" in w else None))
 
@@ -298,6 +310,8 @@ def c13_case(draw):
     if draw(st.integers(0, 9)) == 0:
         pos = draw(st.integers(0, len(case["params"])))
         case["params"].insert(pos, {"name": "fk", "kind": "fickle", "tokens": []})
+    case["ndefaults"] = draw(st.sampled_from([0, 1, 2, 0, 3]))
+    case["omit"] = draw(st.sampled_from([1, 2, 0, 3]))
     case["flag"] = draw(st.sampled_from([True, False]))
     case["fname"] = draw(st.sampled_from(FNAMES))
     return case
